@@ -169,9 +169,13 @@ Exceptions (such as ``-=``, which uses the aggregator :hy:func:`+
 
 (defn comp-op [op a1 a-rest]
   "Helper for shadow comparison operators"
-  (if a-rest
-    (and #* (gfor #(x y) (zip (+ #(a1) a-rest) a-rest) (op x y)))
-    True))
+  ; As in a chained comparison, stop at the first false link.
+  (setv result True)
+  (for [#(x y) (zip (+ #(a1) a-rest) a-rest)]
+    (setv result (op x y))
+    (when (not result)
+      (break)))
+  result)
 (defop < [a1 #* a-rest]
   ["less-than" :unary "True"]
   (comp-op operator.lt a1 a-rest))
